@@ -306,8 +306,16 @@ func CheckFault(m *Model, inj int, v *Verdict, sec *Section) []string {
 		errs = append(errs, "no result recorded")
 		return errs
 	}
-	if len(result.Vals) == 1 && !result.Vals[0].Unbox().IsZero() {
-		errs = append(errs, "result is not the zero value: "+result.Vals[0].String())
+	if len(result.Vals) == 1 {
+		if r := result.Vals[0]; IsInterface(m.S, in.Out) {
+			// the zero value of an interface type is the nil interface, not an
+			// interface holding the zero value of some concrete type
+			if !(r == nil || r.K == "iface" && r.Nil) {
+				errs = append(errs, "result is not the zero value (a nil interface): "+r.String())
+			}
+		} else if !r.Unbox().IsZero() {
+			errs = append(errs, "result is not the zero value: "+r.String())
+		}
 	}
 	if hasCl && result.B1 {
 		errs = append(errs, "a non-nil cleanup function was returned together with the error")
